@@ -54,8 +54,9 @@ ENTRIES = [
     "PSplines.predict", "PSplines.predict", "PSplines.predict2d", "LocalPolynomial.predict", "LocalPolynomial.predict2d",
     "DenseFunctionalData.smooth", "DenseFunctionalData.smooth", "DenseFunctionalData.smooth2d", "DenseFunctionalData.mean",
     "DenseFunctionalData.covariance", "IrregularFunctionalData.smooth", "IrregularFunctionalData.smooth",
-    "IrregularFunctionalData.mean", "IrregularFunctionalData.covariance",
+    "IrregularFunctionalData.mean", "IrregularFunctionalData.covariance", "functional_data._smooth_covariance",
 ]
+SC_ENTRY = "functional_data._smooth_covariance"
 
 
 # --------------------------------------------------------------------------
@@ -149,9 +150,41 @@ def _scale_pts(dom, pts):
     return [lo + sc * t for t in pts]
 
 
+def _sc_case(rng: Rng, tier, force):
+    """The helper `_smooth_covariance` called DIRECTLY with requests its wrappers never send: different query sets in the
+    two directions (rectangular), a sub-range in one direction, a single row / column / point — compared with the entries of
+    the square request and with the exact model."""
+    dom = force.get("dom") if force.get("dom") in DOMAINS else rng.choice(["unit", "doy", "end0", "neg"])
+    method = force.get("method", rng.choice(["PS", "LP"]))
+    lo, sc = _domain(dom)
+    m = rng.choice([7, 8])
+    g = _grid01(rng, m, uniform=False)
+    vs = [rng.dyadics(m, -2, 2, 3) for _ in range(3)]
+    C = [[sum(v[i] * v[j] for v in vs) / 2 for j in range(m)] for i in range(m)]
+    q1 = sorted(Fraction(k, 128) for k in rng.sample(range(6, 122), 4))
+    q2 = sorted(Fraction(k, 128) for k in rng.sample(range(6, 122), 3))
+    P = lambda v: [rs(t) for t in _scale_pts(dom, v)]  # noqa: E731
+    case = dict(kind="q", entry=SC_ENTRY, method=method, dim=2, dom=dom, dom2=dom, ykind="rand", x=P(g), x2=P(g),
+                C=[[rs(t) for t in r] for r in C], Q=P(q1), Q2=P(q2))
+    case["variants"] = [["square", P(q1), P(q1)], ["subrange_first_direction", P(q1[1:3]), P(q2)], ["single_row", P([q1[2]]), P(q2)],
+                        ["single_column", P(q1), P([q2[0]])], ["swapped", P(q2), P(q1)], ["single_point", P([q1[1]]), P([q2[1]])],
+                        ["reversed_rows", P(q1[::-1]), P(q2)]]
+    if method == "PS":
+        ns, dg = rng.choice([3, 4, 5]), rng.choice([1, 2, 3])
+        case["nseg"], case["deg"] = [ns, rng.choice([3, 4, 5])], [dg, rng.choice([1, 2, 3])]
+        case["pen"] = [rs(rng.choice([Fraction(1, 4), Fraction(1), Fraction(8)])) for _ in range(2)]
+    else:
+        case["kernel"] = rng.choice(c06.KERNELS)
+        case["degree"] = rng.choice([0, 1, 1])
+        case["hu"] = rs(rng.choice([Fraction(1, 2), Fraction(3, 4), Fraction(1)]))
+    return case
+
+
 def _case(rng: Rng, tier, entry=None, force=None):
     force = force or {}
     entry = entry or rng.choice(ENTRIES)
+    if entry == SC_ENTRY:
+        return _sc_case(rng, tier, force)
     dom = force.get("dom", rng.choice(DOM_CHOICES))
     method = force.get("method", rng.choice(["PS", "LP"]))
     if entry.startswith("PSplines"):
@@ -679,6 +712,41 @@ def run_impl(case):
             for nm, p1, p2 in calls:
                 P = _product(_np(p1), _np(p2))
                 out["calls"].append(dict(name=nm, vals=lp.predict(y=y, x=X, x_new=P).reshape(len(p1), len(p2)).tolist(), lps=[rec]))
+        return out
+
+    # ---------------- the helper _smooth_covariance called directly (rectangular requests)
+    if entry == SC_ENTRY:
+        import FDApy.representation.functional_data as fdm
+
+        C = np.array([[float(F(t)) for t in r] for r in case["C"]])
+        av = _dargs(case["x"], case["x2"])
+        if method == "PS":
+            kw = dict(n_segments=np.array(case["nseg"]), degree=np.array(case["deg"]), penalty=tuple(float(F(p)) for p in case["pen"]))
+        else:
+            kw = dict(kernel_name=case["kernel"], bandwidth=h, degree=case["degree"])
+        with _Recorder() as rec:
+            for ci, (nm, p1, p2) in enumerate(calls):
+                try:
+                    res = fdm._smooth_covariance(C.copy(), av, _dargs(p1, p2), method_smoothing=method, remove_diagonal=True, **dict(kw))
+                except Exception as e:  # noqa: BLE001
+                    if ci == 0:
+                        raise
+                    rec.take()
+                    out["calls"].append(dict(name=nm, err=f"{type(e).__name__}: {str(e)[:120]}"))
+                    continue
+                log = rec.take()
+                c = dict(name=nm, vals=[np.asarray(res, dtype=float).tolist()])
+                if np.asarray(res).shape != (len(p1), len(p2)):
+                    c["err"] = f"result of shape {np.asarray(res).shape} for a request of {len(p1)} x {len(p2)} points"
+                if method == "PS":
+                    fits = [r for r in log if r["kind"] == "ps"][-1:]
+                    c["fits"] = [_fit_rec(r) for r in fits]
+                    c["seen"] = [dict(nseg=r["nseg"], deg=r["deg"], penalty=r.get("penalty")) for r in fits]
+                else:
+                    lps = [r for r in log if r["kind"] == "lp"][:1]
+                    c["lps"] = [_lp_rec(r) for r in lps]
+                    c["seen"] = [dict(kernel=r["kernel"], h=r["h"], degree=r["degree"]) for r in lps]
+                out["calls"].append(c)
         return out
 
     # ---------------- entry points of the data classes
